@@ -474,6 +474,19 @@ template<class F, class T> std::string deser_content(const std::vector<uint8_t>&
   SK s2 = SK::deserialize(is);
   const std::string c1 = content<F, T>(s1), c2 = content<F, T>(s2);
   if (c1 != c2) return "CONTENT-PATHS-DIFFER bytes: " + c1 + " stream: " + c2;
+  // the restored sketch must also ANSWER from that content: its sorted view is ordered and weighs n (a reader that trusts a
+  // "sorted" flag the image does not carry returns the right items and wrong ranks)
+  for (const SK* s : {&s1, &s2}) {
+    if (s->is_empty()) continue;
+    auto view = s->get_sorted_view();
+    bool first = true; T prev{}; uint64_t total = 0;
+    for (auto it = view.begin(); it != view.end(); ++it) {
+      const auto p = *it;
+      if (!first && std::less<T>()(p.first, prev)) return "CONTENT-QUERY-INCONSISTENT sorted view is not ordered | " + c1;
+      prev = p.first; first = false; total = p.second;      // (the view's weights are cumulative: the last one is the total)
+    }
+    if (total != s->get_n()) return "CONTENT-QUERY-INCONSISTENT sorted view weighs " + std::to_string(total) + ", n = " + std::to_string(s->get_n()) + " | " + c1;
+  }
   return "CONTENT " + c1;
 }
 
